@@ -17,8 +17,8 @@ import NmVerif.NN.BilinearRankLemmas
   C17 — neural-network routines equal their reference (PyTorch) definitions.
 
   MODEL  NmVerif.NN.Conv (view::convnd pipeline), NmVerif.NN.Pool (index::shape_pool2d, slice_pool2d, pool2d window)
-         — the code of /repo with the fixes C17-conv-batch, C17-conv2d-dilation-pair, C17-pool-ceil-window
-         (and C17-max-pool-initial) applied; the group interleaving of conv_reshape_weight is still there (known finding)
+         — the code of /repo with the fixes C17-conv-batch, C17-conv2d-dilation-pair, C17-pool-ceil-window,
+         C17-max-pool-initial, C17-conv-groups-interleaved and C17-batch-norm-rank applied
   SPEC   NmVerif.NN.Spec (`outSize`, `poolOutSpec`, `specWindow`, `conv1dLoop`, `conv2dLoop` with `grpSpec`)
   Floating-point tolerance is the harness's business; these theorems are about shapes and about which source
   elements are combined.
@@ -423,45 +423,83 @@ example :
         (fun v => (v.shape, (allIdx v.shape).map v.get))
       = some ([1, 3], [some ((1 - 3) / 5 * 10 + 0), some ((2 - 3) / 5 * 10 + 1), some ((6 - 3) / 5 * 10 + 2)]) := by decide
 
-/-- **batch_norm (inference form) on a rank-4 input `(N, C, H, W)`** with per-channel `mean`, `var`, `weight`, `bias`
-    of shape `(C)`: the composition (each parameter through `atleast_nd(·, 3)` and `moveaxis(·, −1, −3)`, i.e. shape
-    `(C,1,1)`, then element-wise with broadcasting) exists, keeps the shape, and
-    `out[n,c,h,w] = ((x[n,c,h,w] − mean[c]) / sqrt(var[c] + eps)) · weight[c] + bias[c]` — the parameters of the element's
-    own channel (axis 1), abstract element operations.  For other input ranks see `batch_norm_rank2_counterexample`. -/
+/-- **batch_norm (inference form) on an input `(N, C) ++ sp` of ANY rank ≥ 2** (`sp` = no, one, two, … spatial axes) with
+    per-channel `mean`, `var`, `weight`, `bias` of shape `(C)`: the composition (each parameter through
+    `atleast_nd(·, dim(input) − 1)` and `moveaxis(·, −1, 0)`, i.e. shape `(C, 1, …, 1)`, then element-wise with
+    broadcasting) exists, keeps the shape, and
+    `out[n, c, q] = ((x[n, c, q] − mean[c]) / sqrt(var[c] + eps)) · weight[c] + bias[c]` — the parameters of the element's
+    own channel (axis 1, as PyTorch's `batch_norm`), abstract element operations. -/
 theorem batch_norm_eq_def {α : Type} (add sub mul div : α → α → α) (sqrt : α → α) (eps : α) (x m v w b : Arr α)
+    (N C : Nat) (sp : Shape) (hx : x.shape = [N, C] ++ sp) (hm : m.shape = [C]) (hv : v.shape = [C]) (hw : w.shape = [C])
+    (hb : b.shape = [C]) (hp : Pos ([N, C] ++ sp)) :
+    ∃ r, batchNorm add sub mul div sqrt eps x m v w b = some r ∧ r.shape = [N, C] ++ sp ∧
+      ∀ n c q, n < N → c < C → InShape q sp →
+        r.get ([n, c] ++ q) = some (add (mul (div (sub (x.get ([n, c] ++ q)) (m.get [c])) (sqrt (add (v.get [c]) eps)))
+          (w.get [c])) (b.get [c])) := by
+  have hnd : batchNormNd x.shape.length = sp.length + 1 := by
+    have hl : ([N, C] ++ sp).length = 2 + sp.length := by simp; omega
+    rw [hx, hl]; exact batchNormNd_eq sp.length
+  obtain ⟨w', hw1, hw2, hw3⟩ := chanParam_spec w C sp.length hw
+  obtain ⟨b', hb1, hb2, hb3⟩ := chanParam_spec b C sp.length hb
+  obtain ⟨m', hm1, hm2, hm3⟩ := chanParam_spec m C sp.length hm
+  obtain ⟨v', hv1, hv2, hv3⟩ := chanParam_spec v C sp.length hv
+  rw [← chanParamFront_eq _ C _ hw] at hw1
+  rw [← chanParamFront_eq _ C _ hb] at hb1
+  rw [← chanParamFront_eq _ C _ hm] at hm1
+  rw [← chanParamFront_eq _ C _ hv] at hv1
+  have hsd : ∀ c, c < C → (un (fun t => sqrt (add t eps)) v').get (c :: List.replicate sp.length 0) = some (sqrt (add (v.get [c]) eps)) := by
+    intro c hc; show (v'.get _).map _ = _; rw [hv3 c hc]; rfl
+  obtain ⟨s1, hs1, hs2, hs3⟩ := bin_chanN sub (lift x) m' (fun c => m.get [c]) N C sp hp hx hm2 hm3
+  obtain ⟨d1, hd1, hd2, hd3⟩ := bin_chanN div s1 (un (fun t => sqrt (add t eps)) v') (fun c => sqrt (add (v.get [c]) eps))
+    N C sp hp hs2 hv2 hsd
+  obtain ⟨p1, hp1, hp2, hp3⟩ := bin_chanN mul d1 w' (fun c => w.get [c]) N C sp hp hd2 hw2 hw3
+  obtain ⟨r, hr1, hr2, hr3⟩ := bin_chanN add p1 b' (fun c => b.get [c]) N C sp hp hp2 hb2 hb3
+  refine ⟨r, by simp only [batchNorm, hnd, hw1, hb1, hm1, hv1, hs1, hd1, hp1, Option.bind_some]; exact hr1, hr2,
+    fun n c q hn hc hq => ?_⟩
+  rw [hr3 n c q hn hc hq, hp3 n c q hn hc hq, hd3 n c q hn hc hq, hs3 n c q hn hc hq]
+  rfl
+
+/-- non-vacuity: a `(N, C)` input, a `(N, C, L)` input and a `(N, C, D, H, W)` input -/
+example : Pos ([2, 3] ++ []) ∧ Pos ([2, 3] ++ [4]) ∧ Pos ([1, 2] ++ [2, 1, 3]) ∧ InShape [1, 0, 2] [2, 1, 3] := by decide
+
+/-- the rank-4 form `(N, C, H, W)` (the statement this theorem had before the repair of batch_norm.rank-not-4) -/
+theorem batch_norm_nchw_eq_def {α : Type} (add sub mul div : α → α → α) (sqrt : α → α) (eps : α) (x m v w b : Arr α)
     (N C H W : Nat) (hx : x.shape = [N, C, H, W]) (hm : m.shape = [C]) (hv : v.shape = [C]) (hw : w.shape = [C])
     (hb : b.shape = [C]) (hN : 0 < N) (hC : 0 < C) (hH : 0 < H) (hW : 0 < W) :
     ∃ r, batchNorm add sub mul div sqrt eps x m v w b = some r ∧ r.shape = [N, C, H, W] ∧
       ∀ n c h w', n < N → c < C → h < H → w' < W →
         r.get [n, c, h, w'] = some (add (mul (div (sub (x.get [n, c, h, w']) (m.get [c])) (sqrt (add (v.get [c]) eps)))
           (w.get [c])) (b.get [c])) := by
-  obtain ⟨w', hw1, hw2, hw3⟩ := chanParam3 w C hw
-  obtain ⟨b', hb1, hb2, hb3⟩ := chanParam3 b C hb
-  obtain ⟨m', hm1, hm2, hm3⟩ := chanParam3 m C hm
-  obtain ⟨v', hv1, hv2, hv3⟩ := chanParam3 v C hv
-  have hsd : ∀ c, c < C → (un (fun t => sqrt (add t eps)) v').get [c, 0, 0] = some (sqrt (add (v.get [c]) eps)) := by
-    intro c hc; show (v'.get [c, 0, 0]).map _ = _; rw [hv3 c hc]; rfl
-  obtain ⟨s1, hs1, hs2, hs3⟩ := bin_chan sub (lift x) m' (fun c => m.get [c]) N C H W hN hC hH hW hx hm2 hm3
-  obtain ⟨d1, hd1, hd2, hd3⟩ := bin_chan div s1 (un (fun t => sqrt (add t eps)) v') (fun c => sqrt (add (v.get [c]) eps))
-    N C H W hN hC hH hW hs2 hv2 hsd
-  obtain ⟨p1, hp1, hp2, hp3⟩ := bin_chan mul d1 w' (fun c => w.get [c]) N C H W hN hC hH hW hd2 hw2 hw3
-  obtain ⟨r, hr1, hr2, hr3⟩ := bin_chan add p1 b' (fun c => b.get [c]) N C H W hN hC hH hW hp2 hb2 hb3
-  refine ⟨r, by simp only [batchNorm, hw1, hb1, hm1, hv1, hs1, hd1, hp1, Option.bind_some]; exact hr1, hr2,
-    fun n c h w' hn hc hh hw'' => ?_⟩
-  rw [hr3 n c h w' hn hc hh hw'', hp3 n c h w' hn hc hh hw'', hd3 n c h w' hn hc hh hw'', hs3 n c h w' hn hc hh hw'']
-  rfl
+  have hp : Pos ([N, C] ++ [H, W]) := by
+    intro z hz; simp at hz; rcases hz with rfl | rfl | rfl | rfl <;> assumption
+  obtain ⟨r, h1, h2, h3⟩ := batch_norm_eq_def add sub mul div sqrt eps x m v w b N C [H, W] hx hm hv hw hb hp
+  exact ⟨r, h1, h2, fun n c h w' hn hc hh hw'' => h3 n c [h, w'] hn hc (by simp [InShape]; exact ⟨hh, hw''⟩)⟩
 
 example : ([1, 2, 2, 3] : Shape) = [1, 2, 2, 3] ∧ (0 < 1 ∧ 0 < 2 ∧ 0 < 2 ∧ 0 < 3) := by decide
 
-/-- known finding batch_norm.rank-not-4, as the model mirrors it: on a `(N, C) = (1, 2)` input the per-channel
-    parameters are still moved to axis −3, i.e. reshaped to `(2,1,1)`, and the result has the shape `(2,1,2)` instead
-    of `(1,2)` (PyTorch normalises axis 1 of a `(N, C)` input and keeps the shape). -/
-theorem batch_norm_rank2_counterexample :
+/-- regression instance for the repaired defect batch_norm.rank-not-4 (fixes/C17-batch-norm-rank): on a `(N, C) = (1, 2)`
+    input `x = [[1, 2]]` with `mean = (0, 10)`, `var + eps` and `weight` 1, `bias = (0, 100)` the result keeps the shape
+    `(1, 2)` and element `[0, 1]` is `(2 − 10)/1·1 + 100 = 92` — the parameters of channel 1.  Before the repair
+    (`batchNormOld`: parameters always moved to axis −3 of three, i.e. `(2, 1, 1)`) the result had the shape `(2, 1, 2)`. -/
+theorem batch_norm_rank2_regression :
     let x : Arr Int := ⟨[1, 2], fun d => match d with | [_, c] => (c + 1 : Nat) | _ => 0⟩
     let one : Arr Int := ⟨[2], fun _ => 1⟩
-    let zero : Arr Int := ⟨[2], fun _ => 0⟩
-    (batchNorm (· + ·) (· - ·) (· * ·) (· / ·) id 0 x zero one one zero).map (fun r => r.shape) = some [2, 1, 2]
+    let mean : Arr Int := ⟨[2], fun d => match d with | [c] => (10 * c : Nat) | _ => 0⟩
+    let bias : Arr Int := ⟨[2], fun d => match d with | [c] => (100 * c : Nat) | _ => 0⟩
+    (batchNorm (· + ·) (· - ·) (· * ·) (· / ·) id 0 x mean one one bias).map (fun r => (r.shape, (allIdx r.shape).map r.get))
+        = some ([1, 2], [some 1, some 92])
+      ∧ (batchNormOld (· + ·) (· - ·) (· * ·) (· / ·) id 0 x mean one one bias).map (fun r => r.shape) = some [2, 1, 2]
       ∧ x.shape = [1, 2] := by
+  decide
+
+/-- … and on a `(N, C, L) = (1, 2, 2)` input: element `[0, 1, 0]` takes the parameters of channel 1 -/
+example :
+    let x : Arr Int := ⟨[1, 2, 2], fun d => match d with | [_, c, l] => (2 * c + l + 1 : Nat) | _ => 0⟩
+    let one : Arr Int := ⟨[2], fun _ => 1⟩
+    let mean : Arr Int := ⟨[2], fun d => match d with | [c] => (10 * c : Nat) | _ => 0⟩
+    let bias : Arr Int := ⟨[2], fun d => match d with | [c] => (100 * c : Nat) | _ => 0⟩
+    (batchNorm (· + ·) (· - ·) (· * ·) (· / ·) id 0 x mean one one bias).map (fun r => (r.shape, (allIdx r.shape).map r.get))
+        = some ([1, 2, 2], [some 1, some 2, some 93, some 94]) := by
   decide
 
 /-! ## pairwise_distance -/
@@ -845,8 +883,9 @@ theorem intForm_form (p : Option Nat) : IntForm (form p) := by
     `view::convnd` pipeline (reshape by groups → pad → sliding_window of input and of the dilation-expanded weight →
     multiply → sum → reshape → bias → strided slice) is defined, has the extent `⌊(L + 2p − d(K−1) − 1)/s⌋ + 1`, and
     every element is the nested loop `bias[o] + Σ_c Σ_k xpad[n, grp(o)·Cg + c, l·s + k·d] · w[o,c,k]` — with the group of
-    output channel `o` being `o % g` (`grpCode`), which is what the code does.  Quantified over all integer `x`, `w`,
-    so the equality of the two sums is an identity of the (input index, weight index) term sets. -/
+    output channel `o` being `o / Og` (`grpCode`: the weight is laid out as `(g, Og, Cg, K)`), which is what the code
+    does.  Quantified over all integer `x`, `w`, so the equality of the two sums is an identity of the
+    (input index, weight index) term sets. -/
 theorem conv1d_eq_code_loop (x w : Arr Int) (bias : Option (Arr Int)) (N Og g Cg L K : Nat) (stride padding dilation : Option Nat)
     (hx : x.shape = [N, g * Cg, L]) (hw : w.shape = [Og * g, Cg, K]) (hb : ∀ b, bias = some b → b.shape = [Og * g])
     (hOg : 0 < Og) (hg : 0 < g) (hK : 0 < K)
@@ -855,7 +894,7 @@ theorem conv1d_eq_code_loop (x w : Arr Int) (bias : Option (Arr Int)) (N Og g Cg
     ∃ r, convnd 1 x w bias (form stride) (form padding) (form dilation) g = .ok r ∧
       r.shape = [N, Og * g, outSize L K (strideOf stride) (paddingOf padding) (dilationOf dilation)] ∧
       ∀ n o l, n < N → o < Og * g → l < outSize L K (strideOf stride) (paddingOf padding) (dilationOf dilation) →
-        r.get [n, o, l] = conv1dLoop (grpCode g) x w bias L Cg K (strideOf stride) (paddingOf padding) (dilationOf dilation) n o l := by
+        r.get [n, o, l] = conv1dLoop (grpCode Og) x w bias L Cg K (strideOf stride) (paddingOf padding) (dilationOf dilation) n o l := by
   have hfit' : (K - 1) * dilV (form dilation) + 1 ≤ L + 2 * padVal (form padding) := by
     rw [dilV_form, padVal_form, Nat.mul_comm]; exact hfit
   have := convnd1_eq_codeLoop (bias := bias) hx hw hb hOg hg hK (posForm_form hs) (intForm_form padding) (posForm_form hd) hfit'
@@ -874,14 +913,14 @@ theorem conv_out_shape_eq_formula (x w : Arr Int) (bias : Option (Arr Int)) (N O
   exact ⟨r, h1, h2⟩
 
 /-- **conv1d = the PyTorch nested loop** (group of output channel `o` is `o / (O/groups)`), for any batch, stride,
-    padding, dilation and bias, on the domain where the code's group assignment agrees with PyTorch's: `groups = 1`,
-    or one output channel per group (`O = groups`, e.g. depthwise).  Outside: `conv1d_groups_counterexample`. -/
+    padding, dilation, bias and EVERY `groups` (any common divisor `g` of the channel counts, any number `Og` of output
+    channels per group).  (Before fixes/C17-conv-groups-interleaved this held for `groups = 1` or `O = groups` only:
+    `conv1d_groups_regression`.) -/
 theorem conv1d_eq_nested_loop (x w : Arr Int) (bias : Option (Arr Int)) (N Og g Cg L K : Nat) (stride padding dilation : Option Nat)
     (hx : x.shape = [N, g * Cg, L]) (hw : w.shape = [Og * g, Cg, K]) (hb : ∀ b, bias = some b → b.shape = [Og * g])
     (hOg : 0 < Og) (hg : 0 < g) (hK : 0 < K)
     (hs : ∀ v, stride = some v → 0 < v) (hd : ∀ v, dilation = some v → 0 < v)
-    (hfit : Fits L K (paddingOf padding) (dilationOf dilation))
-    (hdom : g = 1 ∨ Og = 1) :
+    (hfit : Fits L K (paddingOf padding) (dilationOf dilation)) :
     ∃ r, convnd 1 x w bias (form stride) (form padding) (form dilation) g = .ok r ∧
       r.shape = [N, Og * g, outSize L K (strideOf stride) (paddingOf padding) (dilationOf dilation)] ∧
       ∀ n o l, n < N → o < Og * g → l < outSize L K (strideOf stride) (paddingOf padding) (dilationOf dilation) →
@@ -889,7 +928,7 @@ theorem conv1d_eq_nested_loop (x w : Arr Int) (bias : Option (Arr Int)) (N Og g 
   obtain ⟨r, h1, h2, h3⟩ := conv1d_eq_code_loop x w bias N Og g Cg L K stride padding dilation hx hw hb hOg hg hK hs hd hfit
   refine ⟨r, h1, h2, fun n o l hn ho hl => ?_⟩
   rw [h3 n o l hn ho hl]
-  exact conv1dLoop_congr_grp (grpCode_eq_grpSpec hdom ho) x w bias L Cg K _ _ _ n l
+  exact conv1dLoop_congr_grp (grpCode_eq_grpSpec hg o) x w bias L Cg K _ _ _ n l
 
 /-- **conv1d, every argument form the C++ accepts**: stride, padding and dilation each given as `None`, as an integer, or
     as a one-element index array `[v]` (`conv_slices`, `conv_pad`, `conv_expand_spacing` read `at(arg, 0)`), independently
@@ -903,15 +942,15 @@ theorem conv1d_forms_eq_code_loop (x w : Arr Int) (bias : Option (Arr Int)) (N O
     ∃ r, convnd 1 x w bias stride padding dilation g = .ok r ∧
       r.shape = [N, Og * g, outSize L K (strideVal stride) (padVal padding) (dilV dilation)] ∧
       ∀ n o l, n < N → o < Og * g → l < outSize L K (strideVal stride) (padVal padding) (dilV dilation) →
-        r.get [n, o, l] = conv1dLoop (grpCode g) x w bias L Cg K (strideVal stride) (padVal padding) (dilV dilation) n o l := by
+        r.get [n, o, l] = conv1dLoop (grpCode Og) x w bias L Cg K (strideVal stride) (padVal padding) (dilV dilation) n o l := by
   have hfit' : (K - 1) * dilV dilation + 1 ≤ L + 2 * padVal padding := by rw [Nat.mul_comm]; exact hfit
   exact convnd1_eq_codeLoop (bias := bias) hx hw hb hOg hg hK hs hp hd hfit'
 
-/-- … and equal to the PyTorch nested loop on the domain of `conv1d_eq_nested_loop` -/
+/-- … and equal to the PyTorch nested loop, for every `groups` -/
 theorem conv1d_forms_eq_nested_loop (x w : Arr Int) (bias : Option (Arr Int)) (N Og g Cg L K : Nat) (stride padding dilation : PArg)
     (hx : x.shape = [N, g * Cg, L]) (hw : w.shape = [Og * g, Cg, K]) (hb : ∀ b, bias = some b → b.shape = [Og * g])
     (hOg : 0 < Og) (hg : 0 < g) (hK : 0 < K) (hs : PosForm stride) (hp : IntForm padding) (hd : PosForm dilation)
-    (hfit : Fits L K (padVal padding) (dilV dilation)) (hdom : g = 1 ∨ Og = 1) :
+    (hfit : Fits L K (padVal padding) (dilV dilation)) :
     ∃ r, convnd 1 x w bias stride padding dilation g = .ok r ∧
       r.shape = [N, Og * g, outSize L K (strideVal stride) (padVal padding) (dilV dilation)] ∧
       ∀ n o l, n < N → o < Og * g → l < outSize L K (strideVal stride) (padVal padding) (dilV dilation) →
@@ -919,42 +958,59 @@ theorem conv1d_forms_eq_nested_loop (x w : Arr Int) (bias : Option (Arr Int)) (N
   obtain ⟨r, h1, h2, h3⟩ := conv1d_forms_eq_code_loop x w bias N Og g Cg L K stride padding dilation hx hw hb hOg hg hK hs hp hd hfit
   refine ⟨r, h1, h2, fun n o l hn ho hl => ?_⟩
   rw [h3 n o l hn ho hl]
-  exact conv1dLoop_congr_grp (grpCode_eq_grpSpec hdom ho) x w bias L Cg K _ _ _ n l
+  exact conv1dLoop_congr_grp (grpCode_eq_grpSpec hg o) x w bias L Cg K _ _ _ n l
 
 /-- non-vacuity: stride `[2]` (array), padding `1` (integer), dilation `[2]` (array) on `(1, 2, 5)` with a `(3, 2, 2)` weight:
     defined, extent ⌊(5 + 2 − 2 − 1)/2⌋ + 1 = 3 -/
 example : ∃ r, convnd 1 ⟨[1, 2, 5], fun _ => 1⟩ ⟨[3, 2, 2], fun _ => 1⟩ none (.arr [2]) (.int 1) (.arr [2]) 1 = .ok r ∧ r.shape = [1, 3, 3] := by
   obtain ⟨r, h1, h2, _⟩ := conv1d_forms_eq_nested_loop ⟨[1, 2, 5], fun _ => 1⟩ ⟨[3, 2, 2], fun _ => 1⟩ none 1 3 1 2 5 2 (.arr [2]) (.int 1) (.arr [2])
     rfl rfl (by intro b h; cases h) (by decide) (by decide) (by decide) (Or.inr (Or.inr ⟨2, by decide, rfl⟩)) (Or.inr (Or.inl ⟨1, rfl⟩))
-    (Or.inr (Or.inr ⟨2, by decide, rfl⟩)) (by decide) (Or.inl rfl)
+    (Or.inr (Or.inr ⟨2, by decide, rfl⟩)) (by decide)
   exact ⟨r, h1, h2⟩
 
 /-- witnesses used by the examples: `x[n,c,j] = 100·n + 10·c + j + 1`, `w[o,c,k] = 100·o + 10·c + k + 1` -/
 def xW (shape : Shape) : Arr Int := ⟨shape, fun i => match i with | [n, c, j] => (100 * n + 10 * c + j + 1 : Nat) | _ => 0⟩
 def wW (shape : Shape) : Arr Int := ⟨shape, fun i => match i with | [o, c, k] => (100 * o + 10 * c + k + 1 : Nat) | _ => 0⟩
 
-/-- non-vacuity: batch 2, C = 4, groups = 2, O = 2 (depthwise-like), L = 5, K = 2, stride 2, padding 1, dilation 2 —
-    defined, shape (2,2,3), and element (1,1,2) is the PyTorch nested loop -/
-example : ∃ r, convnd 1 (xW [2, 4, 5]) (wW [2, 2, 2]) none (form (some 2)) (form (some 1)) (form (some 2)) 2 = .ok r ∧
-    r.shape = [2, 2, 3] ∧ r.get [1, 1, 2] = conv1dLoop (grpSpec 2 2) (xW [2, 4, 5]) (wW [2, 2, 2]) none 5 2 2 2 1 2 1 1 2 := by
-  obtain ⟨r, h1, h2, h3⟩ := conv1d_eq_nested_loop (xW [2, 4, 5]) (wW [2, 2, 2]) none 2 1 2 2 5 2 (some 2) (some 1) (some 2)
+/-- non-vacuity: batch 2, C = 4, groups = 2, O = 6 (three output channels per group), L = 5, K = 2, stride 2, padding 1,
+    dilation 2 — defined, shape (2,6,3), and element (1,4,2) (group 4 / 3 = 1) is the PyTorch nested loop -/
+example : ∃ r, convnd 1 (xW [2, 4, 5]) (wW [6, 2, 2]) none (form (some 2)) (form (some 1)) (form (some 2)) 2 = .ok r ∧
+    r.shape = [2, 6, 3] ∧ r.get [1, 4, 2] = conv1dLoop (grpSpec 6 2) (xW [2, 4, 5]) (wW [6, 2, 2]) none 5 2 2 2 1 2 1 4 2 := by
+  obtain ⟨r, h1, h2, h3⟩ := conv1d_eq_nested_loop (xW [2, 4, 5]) (wW [6, 2, 2]) none 2 3 2 2 5 2 (some 2) (some 1) (some 2)
     rfl rfl (by intro b h; cases h) (by decide) (by decide) (by decide) (by intro v h; cases h; decide) (by intro v h; cases h; decide)
-    (by decide) (Or.inr rfl)
-  exact ⟨r, h1, h2, h3 1 1 2 (by decide) (by decide) (by decide)⟩
+    (by decide)
+  exact ⟨r, h1, h2, h3 1 4 2 (by decide) (by decide) (by decide)⟩
 
 /-- element read from an evaluation (0 when undefined) -/
 def Res.getD (r : Res (Arr Int)) (i : Idx) : Int := match r with | .ok a => a.get i | _ => 0
 def Res.shapeD (r : Res (Arr Int)) : Shape := match r with | .ok a => a.shape | _ => []
 
-/-- known finding conv.groups-interleaved: C = 2, O = 4, groups = 2, K = L = 1, weights all 1, `x = (1, 2)`.
-    Output channel 1 belongs to group 0 (PyTorch: reads `x[0] = 1`) but the code computes it from group `1 % 2 = 1`
-    (reads `x[1] = 2`). -/
-theorem conv1d_groups_counterexample :
+/-- regression instance for the repaired defect conv.groups-interleaved (fixes/C17-conv-groups-interleaved): C = 2,
+    O = 4, groups = 2, K = L = 1, weights all 1, `x = (1, 2)`.  Output channel 1 belongs to group 0 and reads
+    `x[0] = 1`: the whole output is `(1, 1, 2, 2)`.  Before the repair the weight was laid out `(O/g, g, …)` and channel
+    1 was computed from group `1 % 2 = 1` (`grpInterleaved`: reads `x[1] = 2`, output `(1, 2, 1, 2)`). -/
+theorem conv1d_groups_regression :
     let x : Arr Int := ⟨[1, 2, 1], fun i => match i with | [_, c, _] => (c + 1 : Nat) | _ => 0⟩
     let w : Arr Int := ⟨[4, 1, 1], fun _ => 1⟩
-    Res.getD (convnd 1 x w none .none .none .none 2) [0, 1, 0] = 2
+    (List.range 4).map (fun o => Res.getD (convnd 1 x w none .none .none .none 2) [0, o, 0]) = [1, 1, 2, 2]
       ∧ conv1dLoop (grpSpec 4 2) x w none 1 1 1 1 0 1 0 1 0 = 1
-      ∧ conv1dLoop (grpCode 2) x w none 1 1 1 1 0 1 0 1 0 = 2 := by
+      ∧ conv1dLoop (grpCode 2) x w none 1 1 1 1 0 1 0 1 0 = 1
+      ∧ conv1dLoop (grpInterleaved 2) x w none 1 1 1 1 0 1 0 1 0 = 2 := by
+  decide
+
+/-- regression instance for conv.unbatched-groups (repaired by the same diff): an UNBATCHED input `(C, L) = (2, 4)`,
+    `x = 1..8`, weight `(4, 1, 2) = 1..8`, groups = 2 gives PyTorch's `(O, L_out) = (4, 3)` result
+    `5 8 11 | 11 18 25 | 61 72 83 | 83 98 113`; `conv_reshape_reduce` merges `(g, O/g)` at axis 0 when there is no batch
+    axis.  Before, axis 0 of the summed `(g, O/g, L_out)` array was taken for a batch axis (`convReshapeReduceOld`: shape
+    `(2, 6)`); with groups = 1 the old form on the old layout `(O/g, g, L_out) = (3, 1, 3)` and the new form on the new
+    layout `(g, O/g, L_out) = (1, 3, 3)` both give `(O, L_out) = (3, 3)`. -/
+theorem conv1d_unbatched_regression :
+    let x : Arr Int := ⟨[2, 4], fun i => (computeOffset i (strides [2, 4]) + 1 : Nat)⟩
+    let w : Arr Int := ⟨[4, 1, 2], fun i => (computeOffset i (strides [4, 1, 2]) + 1 : Nat)⟩
+    Res.shapeD (convnd 1 x w none .none .none .none 2) = [4, 3]
+      ∧ (allIdx [4, 3]).map (Res.getD (convnd 1 x w none .none .none .none 2)) = [5, 8, 11, 11, 18, 25, 61, 72, 83, 83, 98, 113]
+      ∧ convReshapeReduce [2, 2, 3] 1 = [4, 3] ∧ convReshapeReduceOld [2, 2, 3] 1 = [2, 6]
+      ∧ convReshapeReduce [1, 3, 3] 1 = [3, 3] ∧ convReshapeReduceOld [3, 1, 3] 1 = [3, 3] := by
   decide
 
 /-- the repaired batch handling as a positive instance: a batch of 2 is defined and keeps its extent -/
@@ -964,8 +1020,8 @@ example : Res.shapeD (convnd 1 (xW [2, 1, 2]) (wW [1, 1, 1]) none .none (.int 0)
     given as `None`, one integer, or a pair `(h, w)` — per-plane values `(sH,sW)`, `(pH,pW)`, `(dH,dW)` =
     `vals2 default arg`: the pipeline with `n_planes = 2` is defined, has the extents
     `⌊(H + 2pH − dH(KH−1) − 1)/sH⌋ + 1`, `⌊(W + 2pW − dW(KW−1) − 1)/sW⌋ + 1`, and every element is
-    `bias[o] + Σ_c Σ_kh Σ_kw xpad[n, grp(o)·Cg + c, i·sH + kh·dH, j·sW + kw·dW] · w[o,c,kh,kw]` with `grp(o) = o % g`
-    (the code's assignment), for every `groups`. -/
+    `bias[o] + Σ_c Σ_kh Σ_kw xpad[n, grp(o)·Cg + c, i·sH + kh·dH, j·sW + kw·dW] · w[o,c,kh,kw]` with `grp(o) = o / Og`
+    (the code's assignment: weight laid out as `(g, Og, Cg, KH, KW)`), for every `groups`. -/
 theorem conv2d_eq_code_loop (x w : Arr Int) (bias : Option (Arr Int)) (N Og g Cg H W KH KW : Nat) (stride padding dilation : PArg)
     (hx : x.shape = [N, g * Cg, H, W]) (hw : w.shape = [Og * g, Cg, KH, KW]) (hb : ∀ b, bias = some b → b.shape = [Og * g])
     (hOg : 0 < Og) (hg : 0 < g) (hKH : 0 < KH) (hKW : 0 < KW)
@@ -976,7 +1032,7 @@ theorem conv2d_eq_code_loop (x w : Arr Int) (bias : Option (Arr Int)) (N Og g Cg
                  outSize W KW (vals2 1 stride).2 (vals2 0 padding).2 (vals2 1 dilation).2] ∧
       ∀ n o i j, n < N → o < Og * g → i < outSize H KH (vals2 1 stride).1 (vals2 0 padding).1 (vals2 1 dilation).1 →
         j < outSize W KW (vals2 1 stride).2 (vals2 0 padding).2 (vals2 1 dilation).2 →
-        r.get [n, o, i, j] = conv2dLoop (grpCode g) x w bias H W Cg KH KW (vals2 1 stride).1 (vals2 1 stride).2
+        r.get [n, o, i, j] = conv2dLoop (grpCode Og) x w bias H W Cg KH KW (vals2 1 stride).1 (vals2 1 stride).2
           (vals2 0 padding).1 (vals2 0 padding).2 (vals2 1 dilation).1 (vals2 1 dilation).2 n o i j := by
   have hfH' : (KH - 1) * (vals2 1 dilation).1 + 1 ≤ H + 2 * (vals2 0 padding).1 := by rw [Nat.mul_comm]; exact hfH
   have hfW' : (KW - 1) * (vals2 1 dilation).2 + 1 ≤ W + 2 * (vals2 0 padding).2 := by rw [Nat.mul_comm]; exact hfW
@@ -994,14 +1050,14 @@ theorem conv2d_out_shape_eq_formula (x w : Arr Int) (bias : Option (Arr Int)) (N
   obtain ⟨r, h1, h2, _⟩ := conv2d_eq_code_loop x w bias N Og g Cg H W KH KW stride padding dilation hx hw hb hOg hg hKH hKW hs hp hd hfH hfW
   exact ⟨r, h1, h2⟩
 
-/-- **conv2d = the PyTorch nested loop** on the domain `groups = 1` or one output channel per group, any batch,
-    None / int / pair forms of stride, padding, dilation.  Outside: `conv2d_groups_counterexample`. -/
+/-- **conv2d = the PyTorch nested loop** for EVERY `groups` (and any number of output channels per group), any batch,
+    None / int / pair forms of stride, padding, dilation.  (Before fixes/C17-conv-groups-interleaved: `groups = 1` or
+    `O = groups` only, `conv2d_groups_regression`.) -/
 theorem conv2d_eq_nested_loop (x w : Arr Int) (bias : Option (Arr Int)) (N Og g Cg H W KH KW : Nat) (stride padding dilation : PArg)
     (hx : x.shape = [N, g * Cg, H, W]) (hw : w.shape = [Og * g, Cg, KH, KW]) (hb : ∀ b, bias = some b → b.shape = [Og * g])
     (hOg : 0 < Og) (hg : 0 < g) (hKH : 0 < KH) (hKW : 0 < KW)
     (hs : PosForm2 stride) (hp : Form2 padding) (hd : PosForm2 dilation)
-    (hfH : Fits H KH (vals2 0 padding).1 (vals2 1 dilation).1) (hfW : Fits W KW (vals2 0 padding).2 (vals2 1 dilation).2)
-    (hdom : g = 1 ∨ Og = 1) :
+    (hfH : Fits H KH (vals2 0 padding).1 (vals2 1 dilation).1) (hfW : Fits W KW (vals2 0 padding).2 (vals2 1 dilation).2) :
     ∃ r, convnd 2 x w bias stride padding dilation g = .ok r ∧
       r.shape = [N, Og * g, outSize H KH (vals2 1 stride).1 (vals2 0 padding).1 (vals2 1 dilation).1,
                  outSize W KW (vals2 1 stride).2 (vals2 0 padding).2 (vals2 1 dilation).2] ∧
@@ -1012,7 +1068,7 @@ theorem conv2d_eq_nested_loop (x w : Arr Int) (bias : Option (Arr Int)) (N Og g 
   obtain ⟨r, h1, h2, h3⟩ := conv2d_eq_code_loop x w bias N Og g Cg H W KH KW stride padding dilation hx hw hb hOg hg hKH hKW hs hp hd hfH hfW
   refine ⟨r, h1, h2, fun n o i j hn ho hi hj => ?_⟩
   rw [h3 n o i j hn ho hi hj]
-  exact conv2dLoop_congr_grp (grpCode_eq_grpSpec hdom ho) x w bias H W Cg KH KW _ _ _ _ _ _ n i j
+  exact conv2dLoop_congr_grp (grpCode_eq_grpSpec hg o) x w bias H W Cg KH KW _ _ _ _ _ _ n i j
 
 /-- non-vacuity for conv2d, with pair forms: batch 2, C = 2 (groups 2, depthwise), 4×5 input, 2×3 kernel, stride (2,1),
     padding (1,0), dilation (1,2) — extents ⌊(4+2−1−1)/2⌋+1 = 3 and ⌊(5+0−4−1)/1⌋+1 = 1 -/
@@ -1025,13 +1081,24 @@ example : ∃ r, convnd 2 ⟨[2, 2, 4, 5], fun _ => 1⟩ ⟨[2, 1, 2, 3], fun _ 
     (by decide) (by decide)
   exact ⟨r, h1, h2⟩
 
-/-- known finding conv.groups-interleaved, conv2d: C = 2, O = 4, groups = 2, 1×1 input and kernel, weights all 1,
-    `x = (1, 2)`: output channel 1 should read input channel 0 (value 1), the code reads channel 1 (value 2). -/
-theorem conv2d_groups_counterexample :
+/-- non-vacuity of `conv2d_eq_nested_loop` with two groups of two output channels each (C = 2, O = 4, groups = 2), 2×2
+    input, 1×2 kernel: defined, shape (1,4,2,1), element (0,2,1,0) (group 2 / 2 = 1) is the PyTorch nested loop -/
+example : ∃ r, convnd 2 ⟨[1, 2, 2, 2], fun _ => 1⟩ ⟨[4, 1, 1, 2], fun _ => 1⟩ none .none .none .none 2 = .ok r ∧ r.shape = [1, 4, 2, 1] ∧
+    r.get [0, 2, 1, 0] = conv2dLoop (grpSpec 4 2) ⟨[1, 2, 2, 2], fun _ => 1⟩ ⟨[4, 1, 1, 2], fun _ => 1⟩ none 2 2 1 1 2 1 1 0 0 1 1 0 2 1 0 := by
+  obtain ⟨r, h1, h2, h3⟩ := conv2d_eq_nested_loop ⟨[1, 2, 2, 2], fun _ => 1⟩ ⟨[4, 1, 1, 2], fun _ => 1⟩ none 1 2 2 1 2 2 1 2 .none .none .none
+    rfl rfl (by intro b h; cases h) (by decide) (by decide) (by decide) (by decide) (Or.inl rfl) (Or.inl rfl) (Or.inl rfl)
+    (by decide) (by decide)
+  exact ⟨r, h1, h2, h3 0 2 1 0 (by decide) (by decide) (by decide) (by decide)⟩
+
+/-- regression instance for the repaired defect conv.groups-interleaved, conv2d: C = 2, O = 4, groups = 2, 1×1 input and
+    kernel, weights all 1, `x = (1, 2)`: output channel 1 reads input channel 0 (value 1), the output is `(1, 1, 2, 2)`;
+    the interleaved assignment read channel 1 (value 2). -/
+theorem conv2d_groups_regression :
     let x : Arr Int := ⟨[1, 2, 1, 1], fun i => match i with | [_, c, _, _] => (c + 1 : Nat) | _ => 0⟩
     let w : Arr Int := ⟨[4, 1, 1, 1], fun _ => 1⟩
-    Res.getD (convnd 2 x w none .none .none .none 2) [0, 1, 0, 0] = 2
-      ∧ conv2dLoop (grpSpec 4 2) x w none 1 1 1 1 1 1 1 0 0 1 1 0 1 0 0 = 1 := by
+    (List.range 4).map (fun o => Res.getD (convnd 2 x w none .none .none .none 2) [0, o, 0, 0]) = [1, 1, 2, 2]
+      ∧ conv2dLoop (grpSpec 4 2) x w none 1 1 1 1 1 1 1 0 0 1 1 0 1 0 0 = 1
+      ∧ conv2dLoop (grpInterleaved 2) x w none 1 1 1 1 1 1 1 0 0 1 1 0 1 0 0 = 2 := by
   decide
 
 /-- the repaired dilation pair as a positive instance: input (1,1,1,3), kernel (1,2), dilation pair (d_h, d_w) = (2, 1)
